@@ -2,7 +2,7 @@
    Print Assumptions.  Costs are integers (dyadic floats scaled by 2^30; 2^-26 is 16). *)
 From Coq Require Import ZArith List Bool.
 From Centro Require Import Base.Sx Model.Lapjv Spec.Lapjv Proofs.LapjvCert Proofs.LapjvRefute Proofs.LapjvTrack
-  Proofs.LapjvPhases Proofs.LapjvAbstract.
+  Proofs.LapjvPhases Proofs.LapjvAbstract Proofs.LapjvGrid Proofs.LapjvArr Proofs.LapjvRows Proofs.LapjvTrackCost.
 Import ListNotations.
 Open Scope Z_scope.
 
@@ -109,8 +109,10 @@ Print Assumptions C01_rt_scan_fixed_bounds.
 (* phases 2-3 at the abstract level (prices as functions): a reduction transfer whose mu bounds the row's
    own other candidates, and a strict augmenting-row-reduction step, keep SlackV.
    _partial: the refinement from the array model (lists over ext, x as a list with n = unassigned) to these
-   steps for the whole of phases 2-4 (lapjv_fixed_cert: wf -> has_PM -> cert_ok (lapjv Fixed 0 epsr k)) is not
-   proved; the per-instance checker (C01_cert_sound, C01_model_certified_optimal) covers the gap. *)
+   steps is proved for phase 1 and phase 3 (C01_phase1_inv, C01_arr_passes_inv below); for phase 2 only the scan
+   (C01_rt_scan_fixed_bounds); phase 4 and lapjv_fixed_cert (wf -> has_PM -> cert_ok (lapjv Fixed 0 epsr k)) are not
+   proved; the per-instance checker (C01_cert_sound, C01_model_certified_optimal) covers the gap.
+   Instances of the hypotheses: Proofs.LapjvAbstract.reduction_transfer_fixed_example / arr_step_strict_example. *)
 Theorem C01_reduction_transfer_fixed_partial : forall costf v x i j1 c1 mu,
   injective x -> SlackV costf v x -> x i = Some j1 -> costf i j1 = Some c1 ->
   (forall j' c', costf i j' = Some c' -> j' <> j1 -> mu <= red v j' c') ->
@@ -127,3 +129,62 @@ Theorem C01_arr_step_strict_partial : forall costf v x i j1 c1 u2,
   SlackV costf (updv v j1 (u2 - red v j1 c1)) x'.
 Proof. exact arr_step_strict. Qed.
 Print Assumptions C01_arr_step_strict_partial.
+
+(* where the eps band cannot matter: all costs multiples of a grid step g > eps (e.g. integer costs, g = 2^30
+   against 16) => the model with the band IS the model without it, in every variant, for every input.
+   C01_lapjv_eps_refuted shows the grid hypothesis is necessary (2^-30 grid). *)
+Theorem C01_eps_irrelevant_on_grid : forall g rt eps epsr k n tri,
+  0 <= eps < g -> 0 <= epsr < g -> (forall t, In t tri -> (g | t_c t)) ->
+  lapjv rt eps epsr k n tri = lapjv rt 0 0 k n tri.
+Proof. exact eps_irrelevant_on_grid. Qed.
+Print Assumptions C01_eps_irrelevant_on_grid.
+
+(* The invariant of the ARRAY model (lists x, y with n = unassigned, y authoritative, prices over ext):
+   Inv n rows x y v := lengths n, all prices finite, and every row assigned in y sits on a listed column of
+   minimal reduced cost;  Pending n y l := l is duplicate-free and its rows are unassigned in y.
+   Phase 1 (lapjv.py:81-113) establishes it on the model's own ragged rows ... *)
+Theorem C01_phase1_inv : forall n tri,
+  (forall t, In t tri -> (t_i t < n)%nat /\ (t_j t < n)%nat) ->
+  (forall j, (j < n)%nat -> exists t, In t tri /\ t_j t = j) ->
+  Inv n (rows_of n tri) (x_init n (min_i n tri)) (y_init n (x_init n (min_i n tri))) (v_init n tri) /\
+  Pending n (y_init n (x_init n (min_i n tri))) (free_rows n (min_i n tri)).
+Proof. exact phase1_inv. Qed.
+Print Assumptions C01_phase1_inv.
+
+(* ... and phase 3 (_lapjv.pyx:178-217, k passes, in-place work list, stale x entries, C locals) keeps it when
+   the tie band is off (eps 0 at :202; any eps >= 0 at :208) - with the band on it does not (F6).
+   Restriction: every row lists >= 2 candidates (so prices stay finite; single-candidate rows give -inf prices
+   and need has_PM + a Hall argument - not proved).  Phase 2 between them is only covered by
+   C01_rt_scan_fixed_bounds + the abstract step. *)
+Theorem C01_arr_passes_inv : forall n tri,
+  (forall t, In t tri -> (t_i t < n)%nat /\ (t_j t < n)%nat) ->
+  NoDup (map fst tri) ->
+  (forall i, (i < n)%nat -> (2 <= length (filter (fun t => (t_i t =? i)%nat) tri))%nat) ->
+  forall epsr fuel k x y v ii x' y' v' ii', 0 <= epsr ->
+  Inv n (rows_of n tri) x y v -> Pending n y ii ->
+  arr_passes k fuel (Fin 0) (Fin epsr) n (rows_of n tri) (x, y, v, ii) = Some (x', y', v', ii') ->
+  Inv n (rows_of n tri) x' y' v' /\ Pending n y' ii'.
+Proof. exact arr_passes_inv_model. Qed.
+Print Assumptions C01_arr_passes_inv.
+
+(* tracker identity, cost side: the match cost (distance / scale + area_weight * area change) with the
+   Euclidean distance abstract (non-negative, zero exactly on equal centroids; sqrt not modelled) is zero on
+   identical detections and strictly positive when centroid or area differ - the hypotheses of
+   C01_tracker_identity_partial on the object block. *)
+Theorem C01_match_cost_self : forall (P : Type) (dist : P -> P -> QArith_base.Q),
+  (forall p, QArith_base.Qeq (dist p p) (QArith_base.inject_Z 0)) ->
+  forall scale weight, QArith_base.Qlt (QArith_base.inject_Z 0) scale ->
+  forall p a, QArith_base.Qlt (QArith_base.inject_Z 0) a ->
+  QArith_base.Qeq (match_cost P dist scale weight p a p a) (QArith_base.inject_Z 0).
+Proof. exact match_cost_self. Qed.
+Print Assumptions C01_match_cost_self.
+
+Theorem C01_match_cost_pos : forall (P : Type) (dist : P -> P -> QArith_base.Q),
+  (forall p q, QArith_base.Qle (QArith_base.inject_Z 0) (dist p q)) ->
+  (forall p q, QArith_base.Qeq (dist p q) (QArith_base.inject_Z 0) -> p = q) ->
+  forall scale weight, QArith_base.Qlt (QArith_base.inject_Z 0) scale -> QArith_base.Qlt (QArith_base.inject_Z 0) weight ->
+  forall p1 a1 p2 a2, QArith_base.Qlt (QArith_base.inject_Z 0) a1 -> QArith_base.Qlt (QArith_base.inject_Z 0) a2 ->
+  (p1 <> p2 \/ ~ QArith_base.Qeq a1 a2) ->
+  QArith_base.Qlt (QArith_base.inject_Z 0) (match_cost P dist scale weight p1 a1 p2 a2).
+Proof. exact match_cost_pos. Qed.
+Print Assumptions C01_match_cost_pos.
